@@ -96,7 +96,13 @@ fn connect_proxy(target_port: u16) -> u16 {
                             }
                         }
                         if !head.starts_with(b"CONNECT ") {
-                            let _ = c.write_all(b"HTTP/1.1 400 Bad\r\n\r\n");
+                            // a forward proxy answers a request in absolute form itself; if the client hands it an
+                            // https:// URL in clear instead of tunnelling, nothing was verified (seed C14-seed8)
+                            if head.windows(9).any(|w| w == b" https://") {
+                                let _ = c.write_all(b"HTTP/1.1 200 OK\r\nContent-Length: 9\r\nConnection: close\r\n\r\ncleartext");
+                            } else {
+                                let _ = c.write_all(b"HTTP/1.1 400 Bad\r\n\r\n");
+                            }
                             return;
                         }
                         let mut up = match TcpStream::connect(("127.0.0.1", target_port)) {
@@ -114,6 +120,44 @@ fn connect_proxy(target_port: u16) -> u16 {
                         let _ = std::io::copy(&mut up2, &mut c);
                         let _ = c.shutdown(std::net::Shutdown::Both);
                         let _ = t.join();
+                    });
+                }
+                Err(_) => std::thread::sleep(Duration::from_millis(2)),
+            }
+        }
+    });
+    port
+}
+
+/// plain-http origin that redirects `GET /to/<host>/<port>` to `https://<host>:<port>/`
+fn redirector() -> u16 {
+    let l = TcpListener::bind("127.0.0.1:0").unwrap();
+    let port = l.local_addr().unwrap().port();
+    std::thread::spawn(move || {
+        l.set_nonblocking(true).ok();
+        let end = Instant::now() + Duration::from_secs(SERVER_LIFETIME_S);
+        while Instant::now() < end {
+            match l.accept() {
+                Ok((mut c, _)) => {
+                    std::thread::spawn(move || {
+                        c.set_nonblocking(false).ok();
+                        c.set_read_timeout(Some(Duration::from_secs(2))).ok();
+                        let mut head = vec![];
+                        let mut b = [0u8; 1];
+                        while !head.ends_with(b"\r\n\r\n") {
+                            match c.read(&mut b) {
+                                Ok(1) => head.push(b[0]),
+                                _ => return,
+                            }
+                        }
+                        let line = String::from_utf8_lossy(&head).to_string();
+                        let path = line.split(' ').nth(1).unwrap_or("/").to_string();
+                        let parts: Vec<&str> = path.split('/').collect();
+                        if parts.len() >= 4 && parts[1] == "to" {
+                            let _ = c.write_all(format!("HTTP/1.1 302 Found\r\nLocation: https://{}:{}/\r\nContent-Length: 0\r\nConnection: close\r\n\r\n", parts[2], parts[3]).as_bytes());
+                        } else {
+                            let _ = c.write_all(b"HTTP/1.1 404 Not Found\r\nContent-Length: 0\r\n\r\n");
+                        }
                     });
                 }
                 Err(_) => std::thread::sleep(Duration::from_millis(2)),
@@ -213,6 +257,7 @@ pub fn generate(_seed: u64, tier: &str, sink: &mut Sink) {
     let ports6: Vec<u16> = chains.iter().map(|c| tls_server_on("[::1]:0", if c.0 == "pinned" { "selfsigned" } else { c.0 })).collect();
     let proxies: Vec<u16> = ports.iter().map(|p| connect_proxy(*p)).collect();
     let tls_proxies: Vec<u16> = ports.iter().map(|p| tls_connect_proxy(*p)).collect();
+    let redir = redirector();
     std::thread::sleep(Duration::from_millis(50));
     // the rows of the matrix, then run by worker threads (a handshake costs tens of milliseconds: the connector
     // loads the system trust store every time); results are emitted in matrix order
@@ -222,8 +267,13 @@ pub fn generate(_seed: u64, tier: &str, sink: &mut Sink) {
             for aic in [false, true] {
                 for aih in [false, true] {
                     for root_added in [false, true] {
-                        for mode in ["direct", "connect", "https-proxy"] {
+                        for mode in ["direct", "connect", "https-proxy", "redirected-connect"] {
                             for place in ["session", "request", "sibling"] {
+                                // the https URL is reached by a redirect from a plain-http URL (which needs no proxy);
+                                // the https hop goes through the CONNECT proxy like any other https request
+                                if mode == "redirected-connect" && (place != "session" || host_kind == "ipv6-literal" || (!thorough && aih && aic)) {
+                                    continue;
+                                }
                                 if !thorough && place == "sibling" && mode != "direct" && aic {
                                     continue;
                                 }
@@ -256,6 +306,7 @@ pub fn generate(_seed: u64, tier: &str, sink: &mut Sink) {
         // directly the IPv6 listener is dialled; through the proxy the CONNECT names [::1]:port and the
         // proxy relays to the IPv4 listener with the same identity
         let url = format!("https://{}:{}/", host, if ip6 && mode == "direct" { ports6[ci] } else { ports[ci] });
+        let url = if mode == "redirected-connect" { format!("http://127.0.0.1:{}/to/{}/{}", redir, host, ports[ci]) } else { url };
         let (eff_aic, eff_aih, eff_root) = if place == "sibling" { (false, false, false) } else { (aic, aih, root_added) };
         let want_pre = {
             let chain_ok = *chain_ok_with_root && eff_root;
@@ -268,7 +319,7 @@ pub fn generate(_seed: u64, tier: &str, sink: &mut Sink) {
         let mut sess = attohttpc::Session::new();
         sess.connect_timeout(Duration::from_secs(6));
         sess.read_timeout(Duration::from_secs(6));
-        if mode == "connect" {
+        if mode == "connect" || mode == "redirected-connect" {
             sess.proxy_settings(attohttpc::ProxySettings::builder().https_proxy(url::Url::parse(&format!("http://127.0.0.1:{}", proxies[ci])).ok()).build());
         } else if mode == "https-proxy" {
             attohttpc::verif_hooks::set_resolver_override("sproxy.test", vec![std::net::SocketAddr::from(([127, 0, 0, 1], tls_proxies[ci]))]);
@@ -346,7 +397,7 @@ pub fn generate(_seed: u64, tier: &str, sink: &mut Sink) {
             let why = if !chain_ok { "untrusted-chain" } else if !*time_ok { "expired" } else { "wrong-name" };
             Err((format!("accepted-{}-{}", why, if place == "sibling" { "flag-leaked-from-sibling" } else { "flags" }), format!("chain {} name_ok {} aic {} aih {} root {} via {} set on {}: handshake ACCEPTED", chain, name_ok, aic, aih, root_added, mode, place)))
         } else {
-            Err((format!("rejected-valid-{}", mode), format!("chain {} name_ok {} aic {} aih {} root {} via {} set on {}: {}", chain, name_ok, aic, aih, root_added, mode, place, err_kind)))
+            Err((format!("rejected-valid-{}", if mode == "redirected-connect" { "connect" } else { mode }), format!("chain {} name_ok {} aic {} aih {} root {} via {} set on {}: {}", chain, name_ok, aic, aih, root_added, mode, place, err_kind)))
         };
         Case {
             tags: vec![format!("backend={}", crate::tlscert::backend()), format!("chain={}", chain), format!("name_ok={}", name_ok), format!("host={}", host_kind), format!("aic={}", aic), format!("aih={}", aih), format!("root={}", root_added), format!("mode={}", mode), format!("set_on={}", place), format!("expect={}", if want { "accept" } else { "reject" })],
